@@ -48,6 +48,16 @@ def generate(rng: random.Random, profile: Optional[Dict[str, Any]] = None) -> Di
             members = [m for m in defs if m.startswith(n + ".") and defs[m] == "method"]
             if members and rng.random() < 0.5:
                 pres.append(rng.choice(members))
+        # a variable that exists only through `global` inside a function is judged together with that
+        # function (like a method with its class): the function is preserved as well
+        try:
+            for fn in ast.walk(ast.parse(x)):
+                if isinstance(fn, (ast.FunctionDef, ast.AsyncFunctionDef)):
+                    declared = {n for g in ast.walk(fn) if isinstance(g, ast.Global) for n in g.names}
+                    if declared & set(pres) and fn.name not in pres:
+                        pres.append(fn.name)
+        except SyntaxError:
+            pass
         return {"engine": "e5", "kind": "preserve", "x": x, "preserve": pres, "safe": False, "keep_imports": rng.random() < 0.2}
     if kind == "skip":
         x = gen.pick_input(rng, corp)
